@@ -50,6 +50,14 @@ CLAIMED.update({
              text="Decides: internal_find_property rejects the empty name and matches shared/name/type; create_* only after a failed lookup; request_property finds before creating; transition guards of set_shared/set_persistent with nothing changed before a throw; persistent set and flags change together (incl. clear_props); Tracked/Tracker protocol; no range-for mutates the set it walks. Two genuine defects are recorded as known findings (set_name bypass F16, down-cast of this in Tracked's ctor/dtor F21). Not decided: lifetime safety under arbitrary destruction orders beyond the protocol.",
              design="3/C14"),
 })
+CLAIMED.update({
+ "C04": dict(technique="static analysis: pairing rule P (mode switch restored on every CFG path), collect_garbage shape/order rules, must-pass-through for leaving deferred mode, guard/dominance rules over StatusAttrib::garbage_collection, second-pass safety of delete_cell_core",
+             text="Decides: every temporary switch of the deferred-deletion mode is undone on every path; collect_garbage's per-kind reset/zero/order/descending loops and early return; enable_deferred_deletion(false) passes through collect_garbage when the mode was on; StatusAttrib::garbage_collection guards (no double deletion, incidences established before the manifoldness pass, remap under is_valid from maps sized before collection, collection on every path); the second run of delete_cell_core by collect_garbage only resets entries it still owns; incidence recomputation skips pending deletions. Not decided: equivalence with immediate deletion, correctness of the remap.",
+             design="3/C04, 2/P"),
+ "C09": dict(technique="static analysis: must-call trigger rule with guard sets (both kinds, no deletion-mode condition, after the unlink), shape rules over the CFG of reorder_incident_halffaces and adjacent_halfface_in_cell",
+             text="Decides the triggers and the walk's shape: reorder_incident_halffaces is called in add_cell, delete_face_core, delete_cell_core and both enable functions under exactly 'both kinds available', independent of the deletion mode and after the victim is unlinked; forward walk appends, backward walk uses the opposite halfedge and prepends, both are bounded, the mirrored reverse is written to the opposite halfedge, replacement only when complete; adjacent_halfface_in_cell's acceptance condition has all three conjuncts. Not decided: that the walk produces the rotational order.",
+             design="3/C09"),
+})
 NOT_YET = {}
 NA = {
  "C10": "soundness/completeness of the lookup queries against a brute-force search is an equality over runtime values of small search loops; no structural necessary condition exists that is not a brittle proxy (DESIGN 3/C10)",
